@@ -93,7 +93,7 @@ fn environment() -> Interpreter<'static> {
 
 fn grammar() -> &'static Grammar {
     static G: OnceLock<Grammar> = OnceLock::new();
-    G.get_or_init(|| Grammar::load("/repo/parser/src/simplesl.pest").expect("grammar"))
+    G.get_or_init(|| Grammar::load(&format!("{}/parser/src/simplesl.pest", run::repo_root())).expect("grammar"))
 }
 
 fn nesting_depth(text: &str) -> usize {
@@ -126,15 +126,15 @@ fn unsafe_import(text: &str) -> bool {
 
 pub fn corpus() -> Vec<String> {
     let mut out = vec![];
-    if let Ok(entries) = std::fs::read_dir("/repo/example_scripts") {
+    if let Ok(entries) = std::fs::read_dir(format!("{}/example_scripts", run::repo_root())) {
         for e in entries.flatten() {
             if let Ok(t) = std::fs::read_to_string(e.path()) {
                 out.push(t);
             }
         }
     }
-    for doc in ["/repo/README.md", "/repo/docs/iterators.md", "/repo/docs/statements.md"] {
-        if let Ok(t) = std::fs::read_to_string(doc) {
+    for doc in ["README.md", "docs/iterators.md", "docs/statements.md"] {
+        if let Ok(t) = std::fs::read_to_string(format!("{}/{doc}", run::repo_root())) {
             let mut in_block = false;
             let mut block = String::new();
             for line in t.lines() {
@@ -275,7 +275,7 @@ pub enum Reach {
 pub fn probe(text: &str, stats: &mut Stats) -> Result<Reach, (String, String)> {
     let panicked = |what: &str, c: Caught| match c {
         Caught::Panic { msg, loc } => Err((
-            format!("C03:{what}:{}", loc.strip_prefix("/repo/").unwrap_or(&loc)),
+            format!("C03:{what}:{}", run::relative_loc(&loc)),
             format!("{what} panicked on {text:?}: {msg} @ {loc}"),
         )),
         Caught::Abort(_) => Ok(()),
